@@ -407,6 +407,52 @@ func c11SeqRun(seq []string) []mc.Finding {
 	return f
 }
 
+// --- a parent kind without metadata.generation: the generation sent to the hook is 0, and that is what is stored
+
+func c11PlainRun(shape string) []mc.Finding {
+	var f []mc.Finding
+	bad := func(key, format string, a ...interface{}) {
+		f = append(f, mc.Finding{Key: "C11:" + key, Msg: fmt.Sprintf("parent kind without metadata.generation, hook status %s: ", shape) + fmt.Sprintf(format, a...)})
+	}
+	w := newCWorld(ccOpt{parent: kit.PlainThing, children: []*sim.Kind{kit.Leaf}, generateSel: true}, false)
+	parent := kit.Obj(kit.PlainThing, "n1", "p")
+	kit.Field(parent, "puid", "metadata", "uid")
+	kit.Field(parent, int64(1), "spec", "x")
+	w.Sim.Seed(parent)
+	w.DeliverAll()
+	w.Hooks.Handle("/cc/sync", world.JSON(func(req map[string]interface{}) interface{} {
+		out := kit.M{"children": kit.L{kit.Field(kit.Obj(kit.Leaf, "", "a"), "1", "spec", "v")}}
+		if st := c11Status(shape); st != nil {
+			out["status"] = st
+		}
+		return out
+	}))
+	for round := 0; round < 2; round++ {
+		w.Sim.ResetLog()
+		if err, p, stack := w.syncKey("n1/p"); err != nil || p != nil {
+			bad("plain:sync-error", "sync %d: %v %v %s", round, err, p, stack)
+			return f
+		}
+		w.DeliverAll()
+		if g := kit.Get(w.Hooks.Calls[len(w.Hooks.Calls)-1].Parsed, "parent", "metadata", "generation"); g != nil && g != int64(0) && g != float64(0) {
+			bad("plain:setup", "the parent sent to the hook carries generation %v", g)
+		}
+		live := w.Sim.Get(kit.PlainThing, "n1", "p")
+		if target := c11Target(shape, 0); !reflect.DeepEqual(kit.Get(live, "status"), interface{}(target)) {
+			bad("plain:final-status", "sync %d: stored status %s, want %s (observedGeneration = the generation sent to the hook = 0)", round, kit.JSON(kit.Get(live, "status")), kit.JSON(target))
+		}
+		if round == 1 {
+			for _, r := range w.Sim.Log {
+				if r.Kind == kit.PlainThing && r.Mutating() {
+					bad("plain:needless-write", "repeat sync: %s", r)
+				}
+			}
+		}
+	}
+	c11Outcome = "plain-followed"
+	return f
+}
+
 func TestVerifC11(t *testing.T) {
 	r := mc.NewReport("C11", "status")
 	dims := []int{len(c11HookStatus), len(c11Live), len(c11Existing), len(c11Conflicts), len(c11Faults), 2}
@@ -442,4 +488,12 @@ func TestVerifC11(t *testing.T) {
 		}
 	})
 	r3.Write()
+	r4 := mc.NewReport("C11", "no-generation")
+	mc.Product(r4, []int{len(c11HookStatus)}, func(idx int, d []int) {
+		shape := c11HookStatus[d[0]]
+		r4.Case(shape, fmt.Sprint(idx), func() []mc.Finding { return c11PlainRun(shape) })
+		r4.Outcome(c11Outcome)
+		r4.Sample(shape)
+	})
+	r4.Write()
 }
